@@ -379,6 +379,19 @@ class LexInterp(MT.TextInterp):
             self._closure_cache[cname] = MT.TextInterp.closure_body(self, cname)
         return self._closure_cache[cname]
 
+    def aggregate(self, ctx, fr, rv, dest=None):
+        # struct-like enum variants (`Event::Open { kinds: … }`) print like structs: build the enum value
+        _, kind, name, fields = rv
+        if kind == "struct":
+            from . import parse as P0
+            from .interp import enum_base
+            parts = P0.split_path(P0.strip_generics(name))
+            if len(parts) >= 2:
+                base = enum_base("::".join(parts[:-1]))
+                if base in self.enum_discr and parts[-1] in self.enum_discr[base]:
+                    return Adt(base, parts[-1], [self.operand(ctx, fr, f[1]) for f in fields])
+        return MT.TextInterp.aggregate(self, ctx, fr, rv, dest)
+
     def const(self, ctx, fr, text, ty_hint=None):
         t = text.strip()
         if t[:1] == '"':
